@@ -158,10 +158,29 @@ impl Property for C01 {
                 }
             }
         }
+        // the longest spellings: every group one of 777 / 737 / 377 / 773
+        for a in [777u64, 737, 377, 773] {
+            for b in [777u64, 737, 377, 773] {
+                special.push(a * 1000 + b);
+                special.push(a * 1_000_000 + b * 1000 + a);
+                for c2 in [777u64, 737] {
+                    special.push(c2 * 1_000_000_000 + a * 1_000_000 + b * 1000 + c2);
+                }
+            }
+        }
         special.sort();
         special.dedup();
         for i in shard_range(special.len() as u64 * 7, shard, nshards) {
             let c = Case { lang: LANGS[(i % 7) as usize].to_string(), n: special[(i / 7) as usize], choices: vec![], prefix: String::new(), suffix: String::new(), phrase: None };
+            if !emit(c) {
+                return;
+            }
+        }
+        // the same numbers in a handful of fixed non-canonical styles (one-word / fully glued forms included)
+        let styles: [&[u8]; 4] = [&[64, 255, 255, 255, 255, 255, 255, 255, 255, 255], &[0, 255, 255, 255, 255, 255, 255, 255, 255, 255], &[128, 0, 255, 0, 255, 0, 255, 0, 255], &[255, 255, 0, 0, 255, 255, 0, 0]];
+        for i in shard_range(special.len() as u64 * 7 * 4, shard, nshards) {
+            let st = styles[(i % 4) as usize];
+            let c = Case { lang: LANGS[((i / 4) % 7) as usize].to_string(), n: special[(i / 28) as usize], choices: st.to_vec(), prefix: String::new(), suffix: String::new(), phrase: None };
             if !emit(c) {
                 return;
             }
